@@ -174,6 +174,7 @@ func runC12(src sim.Source, o Opts) *Result {
 		Rerange bool // range the task's kept iterator sequences again while this request is in flight
 		CloneLate bool // shape clone: the clone is taken after the response was written, then the original's headers change
 		MutReq    bool // with CloneLate: the live request's URL and headers are then rewritten in place
+		CW        bool // any shape: the handler (route or special) also takes a CloneWith copy, as a writer-wrapping middleware would
 		NoQuery bool // the request has no query string; its handler writes a value of its own into QueryParams()
 		Var     int  // generated routes: which parameters take a value that is also a static text (drives backtracking)
 	}
@@ -181,7 +182,7 @@ func runC12(src sim.Source, o Opts) *Result {
 	plans := make([][]reqPlan, nclients)
 	for c := range plans {
 		for i, n := 0, 2+src.Intn("nreq", 6); i < n; i++ {
-			plans[c] = append(plans[c], reqPlan{Shape: sim.Pick(src, "shape", shapes), Route: src.Intn("route", len(routes)), Yields: src.Intn("yields", 3), Rerange: src.Intn("rerange", 3) == 0, NoQuery: src.Intn("noquery", 4) == 0, CloneLate: sim.Bool(src, "clonelate"), MutReq: sim.Bool(src, "mutreq"), Var: sim.Pick(src, "pvar", []int{0, 0, 1, 2, 3, 5, 6, 7})})
+			plans[c] = append(plans[c], reqPlan{Shape: sim.Pick(src, "shape", shapes), Route: src.Intn("route", len(routes)), Yields: src.Intn("yields", 3), Rerange: src.Intn("rerange", 3) == 0, NoQuery: src.Intn("noquery", 4) == 0, CloneLate: sim.Bool(src, "clonelate"), MutReq: sim.Bool(src, "mutreq"), CW: src.Intn("alsoclonewith", 4) == 3, Var: sim.Pick(src, "pvar", []int{0, 0, 1, 2, 3, 5, 6, 7})})
 		}
 	}
 	withWriter := src.Intn("writer", 2) == 1
@@ -358,7 +359,7 @@ func runC12(src sim.Source, o Opts) *Result {
 							return
 						}
 					}
-					if pl.Shape == "clonewith" {
+					if pl.Shape == "clonewith" || (pl.CW && pl.Shape != "hijack") {
 						req2 := world.NewRequest(method, host, path, "", "tok="+tok, nil)
 						req2.Header.Set("X-Token", tok)
 						rw := world.NewRW(world.NewConn())
